@@ -19,6 +19,23 @@ THEOREMS = [
     "GE.Esc.escBody_safe",
     "GE.Esc.escQuote_safe",
 ]
+THM_PARSE = [
+    "GE.Parse.parse_print",
+    "GE.Parse.parse_print_id",
+    "GE.Parse.body_c",
+    "GE.Parse.args_c",
+    "GE.Parse.obj_c",
+    "GE.Parse.arr_c",
+    "GE.Parse.strC_of_body",
+    "GE.Parse.climb",
+    "GE.Parse.lift",
+    "GE.Parse.norm_canon",
+    "GE.Parse.un_table",
+    "GE.Parse.bin_table",
+    "GE.Parse.bin_notrig",
+    "GE.Parse.cond_table",
+    "GE.Parse.headOk",
+]
 THM_MIX = [
     "GE.Mix.mixture_roundtrip",
     "GE.Mix.static_roundtrip",
@@ -194,11 +211,13 @@ def run(chk):
     chk.assumptions = ["PARTIAL: proved = (1) str_derives: the tokens printed for any binding expression derive exactly that expression in the WXML expression grammar whose "
                        "precedence levels are the parser's (parse_left_to_right! chain, re-extracted; parse_chain_matches_wLevel), so parenthesisation by ExpressionLevel is "
                        "sufficient for every nesting; (2) every string survives escape + entity decoding unchanged and the escaped text cannot end its context "
-                       "(decode_escBody, decode_escQuote, *_safe). NOT proved: that the parser inverts the grammar (checked by the oracle: parser tree == intended tree, C03), "
+                       "(decode_escBody, decode_escQuote, *_safe); (4) parse_print: the token-level model of the expression parser (precedence levels, member / call chains, literals, "
+                       "lists; tied to parse/expr.rs on ~10k sources per run) run on the tokens the printer model writes returns the printed tree and consumes every token, "
+                       "for every printable expression. NOT proved: lexing (spelled tokens -> tokens: tested, corr:lex_rt), "
                        "the tag / attribute printer and scope-name mangling (oracle only); (3) mixture_roundtrip: the value parser reads the printed form of ANY sequence "
                        "of text pieces and bindings back as the same pieces (text containing {{, text ending in { before a binding, <, \", &, look-alike references), "
                        "assuming only that the binding parser reads back each printed binding (POk: the part covered by (1) and the parser oracle)"]
-    chk.model_tie([("GE.Thm.C14", THEOREMS), ("GE.Thm.C14Expr", THM_EXPR), ("GE.Thm.C14Mix", THM_MIX)])
+    chk.model_tie([("GE.Thm.C14", THEOREMS), ("GE.Thm.C14Expr", THM_EXPR), ("GE.Thm.C14Mix", THM_MIX), ("GE.Thm.C14Parse", THM_PARSE)])
     rng = chk.rng.fork("c14")
     # ---- (model) escaping and entity decoding ---------------------------------------------------------
     alpha = ["<", ">", "&", "\"", "'", ";", "#", "x", "a", "l", "t", "m", "p", "q", "u", "o", "1", "2", "{", "}", " ", "é", "\U0001F600", "&amp;", "&lt;", "&quot;", "&#60;",
@@ -255,6 +274,37 @@ def run(chk):
                               request=rq, real=a, model=m)
     chk.bump("corr:expr_str:cases", len(preqs))
     chk.bump("corr:expr_str:diffs", nd)
+    # between the token level of parse_print and the text: lexing the spelled printer tokens gives the printer's tokens back (a test, not a theorem),
+    # and the model parser on the REAL printed text returns the tree that was printed
+    lreqs = [core.req("lex_rt", core.unesc(rq.split("\t")[1])) for rq in mreqs]
+    lout = core.run_driver(lreqs)
+    nl = 0
+    for rq, a in zip(lreqs, lout):
+        if a is not None and a != "ok":
+            nl += 1
+            if nl <= 3:
+                chk.violation("correspondence", f"lexing the spelled printer tokens does not give the tokens back ({a})", stream="lex_rt", request=rq)
+    chk.bump("corr:lex_rt:cases", len(lreqs))
+    chk.bump("corr:lex_rt:diffs", nl)
+    from .c03 import num_norm
+    wreqs, wexp = [], []
+    for rq, a in zip(mreqs, real_p):
+        if a.startswith("not-a-single-binding"):
+            continue
+        wreqs.append(core.req("wparse", core.unesc(a)))
+        wexp.append(num_norm(core.unesc(rq.split("\t")[1])))
+    wout = core.run_driver(wreqs)
+    nw = 0
+    for rq, want, got in zip(wreqs, wexp, wout):
+        if got is None:
+            continue
+        g = got if got in ("none", "lex-error") else num_norm(core.unesc(got))
+        if g != want:
+            nw += 1
+            if nw <= 3:
+                chk.violation("correspondence", f"model parser on the printed text reads {g[:120]!r}, the printed tree is {want[:120]!r}", stream="wparse-printed", request=rq)
+    chk.bump("corr:wparse-printed:cases", len(wreqs))
+    chk.bump("corr:wparse-printed:diffs", nw)
     # ---- oracle -------------------------------------------------------------------------------------------
     n = 300 if quick else 6000
     srcs = []
